@@ -42,8 +42,12 @@ def tokenize(s):
     return out
 
 
+_esc = re.compile(r"\\(.)", re.S)
+_esc_map = {"n": "\n", "t": "\t", "r": "\r", "f": "\f"}
+
+
 def _unescape(s):
-    return s[1:-1].replace('\\"', '"').replace("\\\\", "\\").replace("\\n", "\n").replace("\\t", "\t")
+    return _esc.sub(lambda m: _esc_map.get(m.group(1), m.group(1)), s[1:-1])
 
 
 class _P:
